@@ -16,6 +16,11 @@ type framesReq struct {
 	once bool
 	done chan struct{}
 	resp chan frame
+
+	// If set, no further frames are dispatched (to any client) after a frame was delivered to this client
+	// until the client has sent on ack. New requests are still registered while waiting. This allows the
+	// client to register requests for frames that follow directly behind the one it just received.
+	ack chan struct{}
 }
 
 func newFramesReq(bufSize int, filter framesFilter) framesReq {
@@ -139,15 +144,36 @@ func (d *demux) NextFrame(kinds ...kind) <-chan frame {
 }
 
 func (d *demux) Frames(bufSize int, filter framesFilter) (filtered <-chan frame, cancel func()) {
+	filtered, _, cancel = d.frames(bufSize, filter, false)
+	return filtered, cancel
+}
+
+// FramesAck is like Frames, but the demux holds back all further frames after each frame delivered on filtered
+// until ack has been called for it.
+func (d *demux) FramesAck(filter framesFilter) (filtered <-chan frame, ack func(), cancel func()) {
+	return d.frames(0, filter, true)
+}
+
+func (d *demux) frames(bufSize int, filter framesFilter, withAck bool) (filtered <-chan frame, ack func(), cancel func()) {
 	d.mu.Lock()
 	defer d.mu.Unlock()
 	if d.closed {
-		return nil, func() {}
+		return nil, func() {}, func() {}
 	}
 	req := newFramesReq(bufSize, filter)
 	req.once = false
+	if withAck {
+		req.ack = make(chan struct{})
+	}
 	d.requests <- req
-	return req.resp, req.Cancel
+	ack = func() {
+		select {
+		case req.ack <- struct{}{}:
+		case <-req.done:
+		case <-d.done:
+		}
+	}
+	return req.resp, ack, req.Cancel
 }
 
 func (d *demux) run() {
@@ -162,6 +188,20 @@ func (d *demux) run() {
 			}
 			select {
 			case c.resp <- f:
+				if c.ack != nil {
+					for acked := false; !acked; {
+						select {
+						case r := <-d.requests:
+							clients = append(clients, r)
+						case <-c.ack:
+							acked = true
+						case <-c.done:
+							acked = true
+						case <-d.done:
+							acked = true
+						}
+					}
+				}
 				if !c.once {
 					continue
 				}
